@@ -22,6 +22,10 @@ Main theorems
 * `complete_is_cooler` — no fault ⇒ the destination is a cooler
 * `pipeline_dest_untouched`, `pipeline_partial_not_cooler`, `pipeline_frame`,
   `unordered_sortpass_fault_dest_untouched` — creation through a temporary file / from other coolers
+* `bad_metadata_never_completes`, `bad_metadata_not_cooler` — `metadata` that `json.dumps` rejects (`Cfg.infoOk =
+  false`): `write_info` raises before it writes any attribute, so no creation completes and none leaves a cooler
+* `bad_opts_dest_untouched` (+ `runP_stops_at_check`, `optsPre_isPre`, `unorderedPreBadOpts_isPre`) — an option
+  `create()` rejects on entry (unknown `h5opts` key): the call raises and the destination file is exactly as before
 -/
 namespace Cooler.C13
 open Cooler Cooler.CreateSteps
